@@ -196,7 +196,7 @@ def check(ctx):
     actor_typestate(ctx, scope)
     # ---- D-scope
     fns = list(scope.values())
-    found = defects.run(repo, fns, ("D1", "D3", "D4", "D5", "D6", "D8"))
+    found = defects.run(repo, fns, ("D1", "D1b", "D3", "D4", "D5", "D5b", "D6", "D8"))
     found += complex_flow(repo, [f for q, f in scope.items() if q.startswith("ioflo/base/building.py")])
     badf = set()
     for fd in found:
